@@ -622,6 +622,12 @@ func purgeCaches(p *Prog) {
 		}
 		return ownFn(v.Parent())
 	}
+	lemmaCache.Range(func(k, _ any) bool {
+		if f, ok := k.(*ssa.Function); ok && ownFn(f) {
+			lemmaCache.Delete(k)
+		}
+		return true
+	})
 	funcAlias.Range(func(k, _ any) bool {
 		if f, ok := k.(*ssa.Function); ok && ownFn(f) {
 			funcAlias.Delete(k)
